@@ -25,9 +25,9 @@ type xzBlockM struct {
 	// Overrun: the header keeps its length, announces a compressed-size field, and every byte after
 	// the flags has its continuation bit set: the field runs past the end of the header
 	Overrun bool
-	Data                      []byte
-	Pad                       []byte
-	Check                     []byte
+	Data    []byte
+	Pad     []byte
+	Check   []byte
 }
 
 type xzRecM struct{ Unpadded, Uncomp uint64 }
